@@ -130,6 +130,12 @@ def gen(tier, seed):
                 yield 'hh %s %s' % (v, ' '.join(render(rng, rng.choice(all3), maxkey)))
         for _ in range(1500 if thorough else 60):
             yield 'hh %s %s' % (v, ' '.join(random_history(rng, bs, blake, maxkey)))
+    # reuse of a BLAKE2 context whose byte counter has passed a word boundary (preset through the hook: 2^32 / 2^64 / 2^128 bytes cannot be
+    # fed): reset, reset_with_key, finalize_reset, finalize_reset_with_key and clone-then-reset must all start from counter 0
+    from .c20 import counter_cases
+    for l in counter_cases(rng, thorough):
+        if '-reuse-' in l:
+            yield l
 
 
 def model(line):
@@ -196,6 +202,9 @@ def model(line):
 
 
 def check(line, toks):
+    if ' #counter/' in line:
+        from .c20 import check_counter
+        return [('C02:%s:reuse-after-counter-wrap' % line.split()[1].split('/')[0], m) for _s, m in check_counter(line, toks)]
     exp, _ = model(line)
     if toks != exp:
         # locate first differing output
@@ -219,10 +228,14 @@ def shape(line):
 
 
 def classify(line):
+    if ' #counter/' in line:
+        return ('counter-reuse', line.partition(' #')[2], shape(line.partition(' #')[0])[1])
     return shape(line)
 
 
 def coverage(line, toks):
+    if ' #counter/' in line:
+        return ['reuse-after-counter-wrap:' + line.partition(' #counter/')[2].split('/')[0]]
     return model(line)[1]
 
 
